@@ -29,7 +29,7 @@ CLAIMED = {
         ref='4/C04'),
     'C05': dict(
         text='Programs of a forwarding grammar are generated production by production from solver decisions, compiled and given to the real sigtools.signature; when the result is not the plain signature z3 decides over all call shapes that every accepted non-colliding call executes (model re-checked by really calling the generated function), or, for tainted / foreign / doubled stars, that the callee\'s parameters are not advertised and soundness holds for some contents of that star.',
-        note='Bounds: quick = sum of four focus groups (star forms x site shapes; 16 contexts x 6 routes; 45 taint / non-taint statements before/after; unresolvable callees) with bare outer and callee <=1 named parameter, plus positional-only outers on self/partial routes; thorough = larger def-lists, 2 names, full cross product (time-limited).' + TRUST + ' Ground-truth semantics of the grammar productions are the generator\'s (validated by real execution of witnesses).',
+        note='Bounds: quick = sum of four focus groups (star forms x site shapes; 16 contexts x 6 routes; 44 taint / non-taint statements before/after; unresolvable callees) with bare outer and callee <=1 named parameter, plus positional-only outers on self/partial routes; thorough = larger def-lists, 2 names, full cross product (time-limited).' + TRUST + ' Ground-truth semantics of the grammar productions are the generator\'s (validated by real execution of witnesses).',
         ref='4/C05'),
     'C06': dict(
         text='Same program space as C05: the discovered signature and provenance are compared with the value obtained through the public algebra (specifiers.forwards + merge) from the generator\'s ground truth; programs whose written call can never succeed (z3: no call shape accepted) may also yield the plain signature.',
